@@ -991,6 +991,7 @@ func (vc *VC) callWrites(st *State, fr *Frame, call *ssa.CallCommon, arrays map[
 	default:
 		// call through a func-typed value: field contract if the value was loaded from a field
 		if key := fieldFuncKey(call.Value); key != "" {
+			vc.callEventWrites(key, arrays)
 			if c, ok := vc.fieldCon[key]; ok {
 				vc.modArrays(c, nil, arrays, allocs)
 			}
@@ -1226,6 +1227,13 @@ func fieldFuncKey(v ssa.Value) string {
 	}
 	fa, ok := un.X.(*ssa.FieldAddr)
 	if !ok {
+		// an element of a slice of functions held in a struct field (a callback list: `for _, f := range c.callbacks { f(..) }`)
+		// carries the field's key as well: `contract field T.callbacks(args)` then describes every element of the list
+		if ia, ok2 := un.X.(*ssa.IndexAddr); ok2 {
+			if _, isSlice := ia.X.Type().Underlying().(*types.Slice); isSlice {
+				return fieldFuncKey(ia.X)
+			}
+		}
 		return ""
 	}
 	pt, ok := fa.X.Type().Underlying().(*types.Pointer)
